@@ -265,6 +265,14 @@ def _sp_post(ctx):
     classes = ["C18:splice:aligned" if align else "C18:splice:not-aligned"]
     if stop is not None:
         classes.append("C18:splice:with-replaced-region")
+    try:
+        tg_now = snap.tg_snap(ctx.arg(2, "tg"))
+    except Exception:
+        tg_now = None
+    if tg_now is not None and not snap.snap_equal(tg_now, s):
+        # "returns audio and a textgrid": the textgrid that was passed in is the caller's, and stays as it was
+        REC.violation(PROP, "splice", "audioSplice", case, "the textgrid passed in was changed by the call: %r -> %r" % (s, tg_now), ("splice", "arg-mutated"), {"op": "splice", "arg_mutated": True})
+        return
     sig = ("splice", align, stop is not None, tuple(t["t"] for t in s["tiers"]), type(ctx.exc).__name__ if ctx.exc else "ret")
     mech = {"op": "splice", "exc": type(ctx.exc).__name__ if ctx.exc else None, "align": align}
     REC.outcome("splice", ctx.exc)
